@@ -119,6 +119,33 @@ Proof.
     pose proof (insert_sorted_spec jk sq ow q x I) as S. cbv zeta in S.
     destruct (insert_sorted ow jk sq q x) as [q' p]. cbn [fst snd] in *.
     destruct S as (S1&S2&S3). subst p. auto.
+  - (* AddTail(q[i]) *)
+    rewrite abs_length. destruct (i <? cnt q) eqn:E; cbn [fst snd]; [|auto].
+    destruct (add_tail_spec jk sq ow q (getu q i) I). rewrite nth_abs by lia. auto.
+  - (* AddHead(q[i]) *)
+    rewrite abs_length. destruct (i <? cnt q) eqn:E; cbn [fst snd]; [|auto].
+    destruct (add_head_spec jk sq ow q (getu q i) I). rewrite nth_abs by lia. auto.
+  - (* InsertItemAt(idx, q[i]) *)
+    rewrite abs_length. destruct (i <? cnt q) eqn:E; cbn [fst snd]; [|auto].
+    destruct (insert_at_spec jk sq ow q idx (getu q i) I). rewrite nth_abs by lia. auto.
+  - (* ReplaceItemAt(idx, q[i]) *)
+    rewrite abs_length. destruct ((idx <? cnt q) && (i <? cnt q)) eqn:E; cbn [fst snd]; [|auto].
+    split; [apply inv_setu; [assumption|lia]|]. rewrite nth_abs by lia.
+    split; [apply (abs_setu ow sq); [assumption|lia]|reflexivity].
+  - (* RemoveAllInstancesOf(q[i]) *)
+    rewrite abs_length. destruct (i <? cnt q) eqn:E; cbn [fst snd]; [|auto].
+    pose proof (remove_all_instances_spec sq ow q (getu q i) I) as S. cbv zeta in S.
+    destruct (remove_all_instances ow q (getu q i)) as [q' k]. cbn [fst snd] in *.
+    destruct S as (S1&S2&S3). rewrite nth_abs by lia. subst k. auto.
+  - (* ShrinkToFit *)
+    destruct (ensure_size_spec jk sq ow q (cnt q + extra) false 0 true I) as (J1&J2&_). cbn [fst snd]. auto.
+  - (* EnsureCanAdd *)
+    destruct (ensure_size_spec jk sq ow q (cnt q + n) false 0 false I) as (J1&J2&_). cbn [fst snd]. auto.
+  - (* ReplaceAllItems *)
+    destruct (write_all_spec sq ow q (repeat x (cnt q)) I (repeat_length x (cnt q))). cbn [fst snd].
+    rewrite abs_length. auto.
+  - (* GetArrayPointer *)
+    cbn [fst snd]. rewrite (pieces_spec ow sq q I). auto.
 Qed.
 
 Corollary step_inv q o : Inv q -> Inv (fst (step1 q o)).
